@@ -2,6 +2,7 @@
 #include <string.h>
 
 #include "fiber_manager.h"
+#include "fiber_spinlock.h"
 #include "rt.h"
 
 extern void rt_spawn(int idx);
@@ -10,6 +11,9 @@ extern int rt_join(int idx, void** result);
 // "crowd n k": n further fibers, each yielding k times (anonymous: they count towards the number of ready fibers, the
 // fairness bound is still checked for the program fibers)
 static long crowd_total;
+static fiber_spinlock_t y_spin;
+static void yield_setup(void) { fiber_spinlock_init(&y_spin); }
+static long y_try_failed;
 static void* crowd_body(void* p) {
   for (long i = 0; i < (long)(intptr_t)p; i++) fiber_yield();
   return 0;
@@ -24,6 +28,19 @@ static int yield_do_op(int idx, op_t* op) {
     // wait for another program fiber (its first op is "target"): that fiber keeps yielding while somebody is blocked on it
     void* res = 0;
     if (rt_join(op->a, &res) != FIBER_SUCCESS) vs_violation("join_result", "fiber %d: join of fiber %d failed", idx, op->a);
+    return 1;
+  }
+  if (!strcmp(op->name, "sphold")) {
+    // takes a fiber spinlock, yields a times while holding it (nothing forbids that; others may only *try* it meanwhile), releases it
+    fiber_spinlock_lock(&y_spin);
+    for (int i = 0; i < op->a; i++) fiber_yield();
+    fiber_spinlock_unlock(&y_spin);
+    return 1;
+  }
+  if (!strcmp(op->name, "sptry")) {
+    // a single trylock of that spinlock; released at once when it succeeds
+    if (fiber_spinlock_trylock(&y_spin) == FIBER_SUCCESS) fiber_spinlock_unlock(&y_spin);
+    else y_try_failed++;
     return 1;
   }
   if (!strcmp(op->name, "crowd")) {
@@ -98,8 +115,9 @@ GHOST static void yield_final(void) {
   vs_label_max("max_ready", (uint64_t)max_ready);
   vs_label_add("yield_without_switch_while_others_ready", (uint64_t)n_noswitch);
   vs_label_max("crowd", (uint64_t)crowd_total);
+  vs_label_add("spinlock_trylock_failed", (uint64_t)y_try_failed);
   if (max_ready >= 3 && total_yields >= 5 * bound) rt_nontrivial("yield");
   vs_rt_exit();
 }
 
-const harness_t h_yield = {"yield", 0, yield_do_op, 0, yield_final, 0};
+const harness_t h_yield = {"yield", yield_setup, yield_do_op, 0, yield_final, 0};
